@@ -190,6 +190,8 @@ class Unit:
                 a, occ = _parse_anchor(rest, where)
                 section = []
                 lift.after.append((a, occ, section))
+            elif d == 'at-end':
+                section = lift.at_end
             elif d == 'rewrite':
                 lift.rewrites.append(_parse_quoted_pair(rest, where))
                 section = None
@@ -233,6 +235,9 @@ class Unit:
         self.gen_lines = []
         self.drop_report = {}
         self.imported = []
+        # lifted functions that no longer exist in the source: their obligations cannot be decided, but the rest of the unit
+        # still can (a change that deletes a helper and re-routes its caller must not hide the caller's failed contract)
+        self.missing = []
         tpl = os.path.relpath(self.path, os.path.dirname(os.path.dirname(self.path)))
 
         def emit(text, origin):
@@ -302,7 +307,13 @@ class Unit:
                 for mname, mfile in getattr(sl, 'expand_files', {}).items():
                     sl.expand[mname] = load_macro(self.source(mfile), mname)
                 src = self.source(sl.file)
-                segs, report, info = lift_item(src, sl)
+                try:
+                    segs, report, info = lift_item(src, sl)
+                except Lost as e:
+                    if str(e).endswith('not found') and ' :: fn ' in (' :: ' + sl.path):
+                        self.missing.append((sl.name, [], 'stub %s :: %s: %s' % (ch[1], ch[2], e)))
+                        continue
+                    raise
                 emit('// contract imported mechanically from unit `%s`, obligation `%s`, where it is proved on the lifted body' % (ch[1], ch[2]), None)
                 for text, oline in segments_to_lines(segs, src):
                     emit(text, None)
@@ -319,7 +330,13 @@ class Unit:
                 src = self.source(lift.file)
                 for mname, mfile in getattr(lift, 'expand_files', {}).items():
                     lift.expand[mname] = load_macro(self.source(mfile), mname)
-                segs, report, info = lift_item(src, lift)
+                try:
+                    segs, report, info = lift_item(src, lift)
+                except Lost as e:
+                    if str(e).endswith('not found') and ' :: fn ' in (' :: ' + lift.path) and lift.props:
+                        self.missing.append((lift.name, list(lift.props), str(e)))
+                        continue
+                    raise
                 lines = segments_to_lines(segs, src)
                 first = len(self.gen_lines) + 1
                 for text, oline in lines:
